@@ -341,7 +341,7 @@ Example references_agree_hypotheses_met :
                       (Some (Logql.LF (Logql.HSimple {| Logql.slf_label := "n"; Logql.slf_fn := Logql.LGt; Logql.slf_str := None; Logql.slf_num := Some ("1", "1.000000") |}) None None)) in
   let ppl := [Logql.PParser Logql.PJson [jp]; Logql.PLabelFilter flt; Logql.PDrop [("pod", None)]; Logql.PLineFilter Logql.LFContains "e" None]%string in
   let json_get := fun (line : string) (p : list string) => if String.eqb line "{""level"":""err""}" then "err"%string else EmptyString in
-  let parse9 := fun (i : N) (line : string) => Some [("lvl", json_get line ["level"])]%string in
+  let parse9 := fun (i : N) (line : string) => Some (filter SqlEval.nonempty_kv [("lvl", json_get line ["level"])]%string) in
   let r1 := {| e_ts := 1; e_fp := 7%N; e_lbl := Some [("app", "x"); ("n", "2"); ("pod", "p1")]%string; e_msg := "{""level"":""err""}"%string;
                e_val := (QArith_base.Qmake 0 1); e_err := ENone |} in
   forallb B.common_stage ppl = true /\ B.decoders_linked json_get parse9 0%N ppl /\
@@ -356,24 +356,27 @@ Proof.
       * intros a b. cbn. intuition.
 Qed.
 
-(* the link between the decoders is NOT met by the real decoders when a path is missing (or the line is not JSON): the
-   ClickHouse extraction writes "" over the label (C07's reference: "an extraction that finds nothing writes ''"), the
-   in-process jsonWithParams leaves the label alone (its decoder returns no pair: parse9 = Some []).  Then the two
-   references differ on the stream label `app` of the line {"a":"b"} under `| json app="missing"`: "" against "x". *)
-Example decoders_differ_on_a_missing_path :
+(* a missing path: since the repairs json-missing-path-overwrites (ClickHouse path: mapFilter((k,v) -> v != '', ...)) and
+   json-empty-value-overwrites (in-process walker) an extraction that finds nothing writes no label on EITHER path.  Before
+   them the ClickHouse extraction wrote "" over the label (C07's reference said so) while jsonWithParams left it alone, and
+   the link between the decoders was false for every missing path (the former Example decoders_differ_on_a_missing_path:
+   `{app="x"} | json app="missing"` on the line {"a":"b"} gave app="" on the SQL path and app="x" in process and in Loki).
+   Now both references keep the stream label `app`, and the linked in-process decoder is the one that returns no pair. *)
+Example missing_path_keeps_the_label_on_both_paths :
   let jp := {| Logql.pp_label := "app"; Logql.pp_val := "missing"; Logql.pp_path := Some ["missing"] |}%string in
   let ppl := [Logql.PParser Logql.PJson [jp]] in
   let json_get := fun (line : string) (p : list string) => EmptyString in
   let parse9 := fun (i : N) (line : string) => Some (@nil (string * string)) in
   let r1 := {| e_ts := 1; e_fp := 7%N; e_lbl := Some [("app", "x")]%string; e_msg := "{""a"":""b""}"%string; e_val := (QArith_base.Qmake 0 1); e_err := ENone |} in
+  B.decoders_linked json_get parse9 0%N ppl /\
   B.sql_rows (fun _ _ => false) (fun _ => None) json_get (fun _ => 0) ppl [(1, [("app", "x")]%string, 7, "{""a"":""b""}"%string)]
-    = [(1, [("app", EmptyString)]%string, "{""a"":""b""}"%string)] /\
+    = [(1, [("app", "x")]%string, "{""a"":""b""}"%string)] /\
   map (fun e => (e_ts _ e, lbl_of _ e, e_msg _ e))
       (fold_left (fun x s => sem_stage QArith_base.Q (QArith_base.Qmake 0 1) (QArith_base.Qmake 1 1) QArith_base.Qplus QArith_base.Qdiv B.qltb B.qleb B.qeqb QArith_base.inject_Z (fun _ => 0%N) (B.re9 (fun _ _ => false)) (fun _ => None) parse9 (fun _ _ => None)
                                        {| c_from := 0; c_to := 10; c_limit := 0 |} s x)
                  (B.tr_chain (fun _ => None) 0%N ppl) [r1])
     = [(1, [("app", "x")]%string, "{""a"":""b""}"%string)].
-Proof. cbv zeta. split; reflexivity. Qed.
+Proof. cbv zeta. split; [cbn; split; [intros; reflexivity|exact I]|]. split; reflexivity. Qed.
 
 (* ============================================================================================================== *)
 (* results as a whole, series order unspecified (Go iterates maps in any order)                                      *)
@@ -424,4 +427,73 @@ Example log_request_hypotheses_met :
                                      (ch ++ [SOptimizer Z])%list [[mk 1 7%N [("app", "x")] "a=1"]; [mk 2 8%N [("app", "y")] "a=2"; mk 3 7%N [("app", "x")] "a=3"; eof]]))) = 2%nat.
 Proof.
   cbv zeta. split; [repeat constructor; eexists; reflexivity|]. split; [repeat constructor; discriminate|]. split; reflexivity.
+Qed.
+
+(* ============================================================================================================== *)
+(* the aggregation stage as a whole: ONE list against sem_agg (series order unspecified), io.EOF entries inside     *)
+From Qryn Require proofs.InternalEngineAggWholeProofs.
+Module W := InternalEngineAggWholeProofs.
+Section C09_AGG_WHOLE.
+  Variable V : Type.
+  Variables (v0 v1 : V) (vadd vdiv : V -> V -> V) (vltb vleb veqb : V -> V -> bool) (vofZ : Z -> V).
+  Variable panic_kills : bool.
+  Variable fpf : lbls -> N.
+  Variable re_match : string -> string -> bool.
+  Variable pfloat : string -> option V.
+  Variable parse : N -> string -> option lbls.
+  Variable tmpl : N -> lbls -> option string.
+  Notation run_stage := (run_stage V v0 v1 vadd vdiv vltb vleb veqb vofZ panic_kills fpf re_match pfloat parse tmpl).
+
+  (* range and vector aggregation (all 16 functions and absent_over_time) as a whole result: the upstream is any stream
+     of data rows inside the window and io.EOF entries (the entry that ends every ClickHouse result -- anywhere, in any
+     batching; W.agg_stream_ok), the rows carry a label map, the upstream gives one fingerprint to one label set and one
+     label set to one fingerprint (W.one_fp_per_set: what ClickHouse delivers and what the parser / by-without stages
+     establish; no link to hash.go is needed), there are at most 2000 series (W.fps: the distinct fingerprints), and the
+     window is made of whole buckets (needed for absent_over_time only).  Then the stage does NOT fail (no hypothesis
+     "the fold succeeded" any more), sends data entries only, and what it sends is, as ONE list, a permutation of what
+     the reference sem_agg defines for the data rows: same timestamps, label sets, values; the order between series is
+     Go's ascending fingerprint against the reference's first appearance, hence unspecified; the fingerprint itself is
+     not part of the definition (erase).                                                                                *)
+  Theorem aggregation_whole_result :
+    vltb v0 v0 = false -> vltb v0 v1 = true -> veqb v0 v0 = true -> veqb v1 v0 = false -> vltb v0 (vadd v0 v1) = true ->
+    (forall x, vltb v0 x = true -> vltb v0 (vadd x v1) = true) -> (forall x, vltb v0 x = true -> veqb x v0 = false) ->
+    forall k c dur bs,
+    agg_covered k = true ->
+    W.agg_stream_ok V c dur (List.concat bs) ->
+    Forall (data_row V) (data_of V (List.concat bs)) ->
+    W.one_fp_per_set V (data_of V (List.concat bs)) ->
+    (List.length (W.fps V (data_of V (List.concat bs))) <= 2000)%nat ->
+    agg_specified k = true \/ c_to c - c_from c = stream_len c dur * dur ->
+    Forall (fun e => e_err V e = ENone) (List.concat (run_stage c (SAgg V k dur) bs)) /\
+    Permutation (map (erase V) (List.concat (run_stage c (SAgg V k dur) bs)))
+                (map (erase V) (sem_agg V v0 v1 vadd vdiv vltb vofZ fpf k c dur (data_of V (List.concat bs)))).
+  Proof. exact (W.agg_whole_stmt V v0 v1 vadd vdiv vltb vleb veqb vofZ panic_kills re_match pfloat parse tmpl fpf). Qed.
+End C09_AGG_WHOLE.
+Print Assumptions aggregation_whole_result.
+
+(* hypotheses met by a non-trivial stream: min_over_time over a 20 s window of two 10 s buckets, two series whose
+   fingerprints (9 and 5) are not hash.go's and come in the order opposite to Go's output order, an io.EOF entry in the
+   middle and one at the end, three batches; the stage sends the series of fingerprint 5 first, the reference the label
+   set {a="b"} (fingerprint 9) first: a permutation that is not the identity *)
+Example aggregation_whole_hypotheses_met :
+  let mk := fun ts fp m v => {| e_ts := ts; e_fp := fp; e_lbl := Some m; e_msg := EmptyString; e_val := v; e_err := ENone |} in
+  let eof := {| e_ts := 0; e_fp := 0%N; e_lbl := None; e_msg := EmptyString; e_val := 0; e_err := EEof |} in
+  let c := {| c_from := 0; c_to := 20; c_limit := 0 |} in
+  let bs := [[mk 1 9%N [("a", "b")] 3; mk 12 5%N [("a", "c")] 7]; [eof; mk 2 9%N [("a", "b")] 1]; [mk 3 5%N [("a", "c")] 4; eof]] in
+  let fpf := fun m : lbls => N.of_nat (List.length m) in
+  agg_covered (KUnwrap UMin) = true /\ W.agg_stream_ok Z c 10 (List.concat bs) /\ Forall (data_row Z) (data_of Z (List.concat bs)) /\
+  W.one_fp_per_set Z (data_of Z (List.concat bs)) /\ (List.length (W.fps Z (data_of Z (List.concat bs))) <= 2000)%nat /\
+  map (erase Z) (List.concat (run_stage Z 0 1 Z.add Z.div Z.ltb Z.leb Z.eqb (fun z => z) false fpf (fun _ _ => false) (fun _ => None)
+                         (fun _ _ => None) (fun _ _ => None) c (SAgg Z (KUnwrap UMin) 10) bs))
+  = [(0, Some [("a", "c")], EmptyString, 4, ENone); (10, Some [("a", "c")], EmptyString, 7, ENone); (0, Some [("a", "b")], EmptyString, 1, ENone)] /\
+  map (erase Z) (sem_agg Z 0 1 Z.add Z.div Z.ltb (fun z => z) fpf (KUnwrap UMin) c 10 (data_of Z (List.concat bs)))
+  = [(0, Some [("a", "b")], EmptyString, 1, ENone); (0, Some [("a", "c")], EmptyString, 4, ENone); (10, Some [("a", "c")], EmptyString, 7, ENone)].
+Proof.
+  cbv zeta. split; [reflexivity|]. split.
+  { repeat (constructor; [first [right; reflexivity | left; split; [reflexivity|unfold in_window, stream_len; cbn; lia]]|]). constructor. }
+  split; [repeat constructor; eexists; reflexivity|]. split.
+  { intros a b Ha Hb. cbn in Ha, Hb.
+    repeat (destruct Ha as [<-|Ha]; [repeat (destruct Hb as [<-|Hb]; [cbn; split; intros H; try reflexivity; try discriminate H|]); destruct Hb|]).
+    destruct Ha. }
+  split; [vm_compute; lia|]. split; vm_compute; reflexivity.
 Qed.
